@@ -304,7 +304,7 @@ def drv_narwhals(c, ctx, col):
 def drv_2d(c, ctx, col):
     """a factor that evaluates to a 2-D array: a row is null iff one of its cells is NaN (infinities are not nulls)"""
     n = 3
-    cells = [c.pick([1.5, np.nan, np.inf, -np.inf]) for _ in range(2 * n)]
+    cells = [c.pick(ctx.get("cells", [1.5, np.nan, np.inf, -np.inf])) for _ in range(2 * n)]
     m = np.array(cells, dtype=float).reshape(n, 2)
     a_null = c.pick([(), (1,)])
     policy = c.pick(["drop", "raise"])
@@ -409,7 +409,7 @@ def drv_policies(c, ctx, col):
     y_null = pattern(c, n, 1) if "y" in FORMULAS[formula][0] else ()
     index_kind = c.pick(["default", "nonunique"])
     output = c.pick(ctx["outputs"])
-    dropname = c.pick(["none", "{0}", "{0,2}"]) if policy == "raise" else "none"
+    dropname = c.pick(ctx.get("raise_dropsets", ["none", "{0}", "{0,2}"])) if policy == "raise" else "none"
     caller = DROPSETS[dropname]
     if "hashed" in formula and "matrix" in entry or "hashed" in formula and "spec" in entry:
         raise Skip()
@@ -461,11 +461,11 @@ def subchecks(tier, seed):
         Sub("drop-narwhals", drv_narwhals, {"n": 3, "formulas": [f for f in allf if "hashed" not in f]}, shard_depth=3,
             bounds={"rows": 3, "materializer": "narwhals on a pandas frame / on a pyarrow table", "null_patterns": "<= 2 nulls over a, A; <= 1 in y",
                     "policies": ["drop", "raise"]}),
-        Sub("drop-2d-factor", drv_2d, {}, shard_depth=3,
-            bounds={"rows": 3, "cells": "every 3x2 array over {1.5, NaN, +inf, -inf}", "plus": "<= 1 null in a", "policies": ["drop", "raise"]}),
+        Sub("drop-2d-factor", drv_2d, {"cells": [1.5, np.nan, np.inf, -np.inf]} if not quick else {"cells": [np.inf, np.nan, -np.inf]}, shard_depth=3,
+            bounds={"rows": 3, "cells": "every 3x2 array over {1.5, NaN, +inf, -inf} (quick: {NaN, +inf, -inf})", "plus": "<= 1 null in a", "policies": ["drop", "raise"]}),
         Sub("drop-reuse", drv_reuse, {"n": 3, "formulas": [f for f in allf if "hashed" not in f], "max_nulls": 1 if quick else 2}, shard_depth=3,
             bounds={"rows": 3, "fit": "clean frame", "apply": "frame with <= %d nulls over a, A; <= 1 in y" % (1 if quick else 2)}),
-        Sub("policies", drv_policies, {"n": 3 if quick else 4, "formulas": allf, "entries": pe[:3] if quick else pe,
+        Sub("policies", drv_policies, {"n": 3 if quick else 4, "formulas": allf, "entries": pe[:3] if quick else pe, "raise_dropsets": ["none", "{0,2}"] if quick else ["none", "{0}", "{0,2}"],
                                        "outputs": ["pandas"] if quick else ["pandas", "sparse"]}, shard_depth=3,
             bounds={"policies": ["raise", "ignore"], "null_patterns": "all over a, A"}),
     ]
